@@ -22,9 +22,45 @@ func txnScenarios() []txnScen {
 		{Name: "R1-long-reader-vs-writers", Init: init, Threads: [][]txProg{{ro("rx", "rx", "ry", "rx")}, {rw("C", "wx"), rw("C", "wx", "dy"), rw("C", "wx")}}},
 		{Name: "R3-own-writes-overlay", Init: init, Threads: [][]txProg{{rw("C", "rx", "wx", "rx", "ry", "dx", "rx")}, {rw("C", "wx", "wy")}}},
 		{Name: "R4-two-readers-one-finishes", Init: init, Threads: [][]txProg{{ro("rx")}, {ro("rx", "ry", "rx")}, {rw("C", "wx"), rw("C", "wx"), rw("C", "wy")}}},
+		// long-lived readers that read again only when the writers are done and the flusher is idle ("Q" steers, never judges):
+		// the snapshot has to survive rotation, flush, compaction and version discard with the watermark wherever the
+		// other transactions left it; one writer shares the reader's snapshot timestamp
+		{Name: "R5-reader-spans-compactions", Init: init, Threads: [][]txProg{{ro("rx", "Q", "rx", "ry")}, {rw("C", "wx"), rw("C", "wx", "dy"), rw("C", "wx"), rw("C", "wy")}}},
+		{Name: "R6-updating-reader-spans-compactions", Init: init, Threads: [][]txProg{{rw("C", "ry", "Q", "rx", "ry", "wy")}, {rw("C", "rx", "wx"), rw("C", "wx"), ro("rx"), rw("C", "wx"), rw("C", "wx")}}},
 		{Name: "C1-read-absent-delete", Init: []txProg{rw("C", "wy")}, Threads: [][]txProg{{rw("C", "rx", "wy")}, {rw("C", "wx")}, {rw("C", "dx")}}},
 		{Name: "C2-own-write-then-read", Init: init, Threads: [][]txProg{{rw("C", "wx", "rx", "wy")}, {rw("C", "wx")}, {rw("X", "rx", "wx")}}},
 	}
+}
+
+// hybridScenarios: staged prefixes with concurrent commits (see txnScen.Staged). Over a menu of small update
+// programs: (A deferred, B committed in the prefix, C deferred) with a concurrent reader, (A, B deferred) with a
+// concurrent reader, and (A, B, C deferred).
+func hybridScenarios(tier string) []txnScen {
+	init := []txProg{rw("C", "wx", "wy")}
+	menu := []txProg{rw("C", "rx", "wx"), rw("C", "rx", "wy"), rw("C", "wx"), rw("C", "wy")}
+	if tier == "thorough" {
+		menu = append(menu, rw("C", "ry", "wx"), rw("C", "rx", "ry", "wx"), rw("C", "dx"), rw("X", "rx", "wx"))
+	}
+	short := func(p txProg) string {
+		s := p.String()
+		return s[3 : len(s)-2]
+	}
+	var out []txnScen
+	for _, a := range menu {
+		for _, b := range menu {
+			out = append(out, txnScen{Name: fmt.Sprintf("H2[%s|%s]+reader", short(a), short(b)), Init: init,
+				Staged: []stagedTxn{{a, true}, {b, true}}, Threads: [][]txProg{{ro("rx", "ry")}}})
+			for _, c := range menu {
+				out = append(out, txnScen{Name: fmt.Sprintf("H3[%s|%s committed|%s]+reader", short(a), short(b), short(c)), Init: init,
+					Staged: []stagedTxn{{a, true}, {b, false}, {c, true}}, Threads: [][]txProg{{ro("rx")}}})
+				if tier == "thorough" {
+					out = append(out, txnScen{Name: fmt.Sprintf("H3[%s|%s|%s]", short(a), short(b), short(c)), Init: init,
+						Staged: []stagedTxn{{a, true}, {b, true}, {c, true}}})
+				}
+			}
+		}
+	}
+	return out
 }
 
 type txnPlan struct {
@@ -67,12 +103,62 @@ func txnUnits(tier, prop string, oracles ...txnOracle) []Unit {
 	for _, s := range txnScenarios() {
 		scs[s.Name] = s
 	}
+	// hybrid family: groups of scenarios per unit
+	hy := hybridScenarios(tier)
+	hb := []int{0, 1, 2}
+	hcfgs := []struct {
+		n string
+		c dbCfg
+	}{{"mem-only", cfgTxnMem}}
+	if tier == "thorough" {
+		hb = []int{0, 1, 2, 3}
+		hcfgs = append(hcfgs, struct {
+			n string
+			c dbCfg
+		}{"rotate-always", cfgTxnRotate})
+	}
+	const group = 5
+	for _, hc := range hcfgs {
+		for lo := 0; lo < len(hy); lo += group {
+			hc, part := hc, hy[lo:min(lo+group, len(hy))]
+			units = append(units, Unit{Name: fmt.Sprintf("hybrid/%s/budgets=%v/%d-%d", hc.n, hb, lo, lo+len(part)), Weight: 15, Run: func(c *Ctx) {
+				for i, sc := range part {
+					if c.Replay != nil {
+						var rc struct{ Index int }
+						jsonUnmarshal(c.Replay.Case, &rc)
+						if rc.Index != i {
+							continue
+						}
+						fmt.Println("scenario:", sc.Name)
+					}
+					if c.TimeUp() {
+						c.Res.Exhaustive = false
+						c.Cap("deadline reached before all hybrid scenarios of this unit were explored")
+						return
+					}
+					sc.Cfg = hc.c
+					sc.Keys = txnKeys
+					sc.FreezeEpilogue = true
+					sc.NoClose = true
+					sc.NoClose = true
+					nv := len(c.Res.Violations)
+					exploreTxn(c, sc, hb[len(hb)-1:], 1, 0, oracles...)
+					for k := nv; k < len(c.Res.Violations); k++ {
+						c.Res.Violations[k].Case = jsonMarshal(map[string]any{"Index": i, "scenario": sc.Name})
+						c.Res.Violations[k].Detail = "scenario " + sc.Name + "\n" + c.Res.Violations[k].Detail
+					}
+				}
+			}})
+		}
+	}
 	for _, pl := range txnPlans(tier, prop) {
 		for sh := 0; sh < pl.shards; sh++ {
 			pl, sh := pl, sh
 			sc := scs[pl.scen]
 			sc.Cfg = pl.cfg
 			sc.Keys = txnKeys
+			sc.FreezeEpilogue = true
+			sc.NoClose = true
 			name := fmt.Sprintf("sched/%s/%s/budgets=%v", pl.scen, pl.cfgName, pl.budgets)
 			if pl.shards > 1 {
 				name += fmt.Sprintf("/shard%d of %d", sh, pl.shards)
@@ -118,43 +204,57 @@ func apiUnits(tier string, oracles ...txnOracle) []Unit {
 		progs := apiPrograms(txnKeys, pl.maxOps, pl.disc)
 		// one unit per first program
 		for fi := range progs {
-			pl, fi := pl, fi
-			units = append(units, Unit{Name: fmt.Sprintf("%s/first=%s", pl.name, progs[fi]), Weight: pl.k * pl.maxOps, Run: func(c *Ctx) {
-				if c.Replay != nil {
-					replayAPI(c, oracles...)
-					return
+			for si := range progs {
+				if pl.k < 3 && si > 0 {
+					break
 				}
-				idx := make([]int, pl.k)
-				idx[0] = fi
-				var rec func(p int)
-				rec = func(p int) {
-					if p == pl.k {
-						if c.TimeUp() {
-							if c.Res.Exhaustive {
-								c.Res.Exhaustive = false
-								c.Cap("deadline reached before all program tuples of this unit were run")
-							}
-							return
-						}
-						tuple := make([]txProg, pl.k)
-						for i, x := range idx {
-							tuple[i] = progs[x]
-						}
-						exploreAPI(c, pl.cfg, init, tuple, pl.eager, oracles...)
+				pl, fi, si := pl, fi, si
+				uname := fmt.Sprintf("%s/first=%s", pl.name, progs[fi])
+				if pl.k >= 3 {
+					uname += fmt.Sprintf("/second=%s", progs[si])
+				}
+				units = append(units, Unit{Name: uname, Weight: pl.k * pl.maxOps, Run: func(c *Ctx) {
+					if c.Replay != nil {
+						replayAPI(c, oracles...)
 						return
 					}
-					// transactions other than the first are interchangeable: non-decreasing indices
-					from := 0
-					if p >= 2 {
-						from = idx[p-1]
+					idx := make([]int, pl.k)
+					idx[0] = fi
+					var rec func(p int)
+					rec = func(p int) {
+						if p == pl.k {
+							if c.TimeUp() {
+								if c.Res.Exhaustive {
+									c.Res.Exhaustive = false
+									c.Cap("deadline reached before all program tuples of this unit were run")
+								}
+								return
+							}
+							tuple := make([]txProg, pl.k)
+							for i, x := range idx {
+								tuple[i] = progs[x]
+							}
+							exploreAPI(c, pl.cfg, init, tuple, pl.eager, oracles...)
+							return
+						}
+						// transactions other than the first are interchangeable: non-decreasing indices
+						from := 0
+						if p >= 2 {
+							from = idx[p-1]
+						}
+						for i := from; i < len(progs); i++ {
+							idx[p] = i
+							rec(p + 1)
+						}
 					}
-					for i := from; i < len(progs); i++ {
-						idx[p] = i
-						rec(p + 1)
+					if pl.k >= 3 {
+						idx[1] = si
+						rec(2)
+					} else {
+						rec(1)
 					}
-				}
-				rec(1)
-			}})
+				}})
+			}
 		}
 	}
 	return units
